@@ -49,6 +49,7 @@ def impl(case):
             dep = m.get_depths()
             out['depths'] = None if dep is None else [None if np.isnan(x) else float(x) for x in dep]
             out['wmi'] = np.asarray(m.wmi, dtype=np.float64).tolist()
+            out['chans_w'] = [[int(c) for c in m.get_template(t, unwhiten=False).channel_ids] for t in range(int(m.n_templates))]
         finally:
             m.close()
     return out
@@ -83,6 +84,11 @@ def model_query(case, impl_res):
         qs.append(dict(op='depths', feat0=DC.fracs([[row for row in f[0]] for f in spec['pc_features']]),
                        cols=spec['pc_feature_ind'], ys=DC.fracs([p[1] for p in spec['channel_positions']]),
                        spike_templates=spec['spike_templates']))
+    if 'chans_w' in ok:
+        # the cluster waveforms the cluster summaries are computed from, against the C08 model
+        st8 = spec['spike_templates']
+        q['_second'] = dict(p='C08', op='clusters', W=DC.fracs(spec['templates']), chans=ok['chans_w'], st=st8,
+                            sc=spec.get('spike_clusters') or st8, ns=len(spec['templates'][0]), nc=spec['n_channels'])
     q['qs'] = qs
     return q
 
@@ -106,6 +112,25 @@ def judge(case, impl_res, ans):
         bad = DC.check_wmi(spec, ok['wmi'])
         if bad:
             return 'SPEC: ' + bad
+    # the arrays the model's formulas are evaluated on are the STORED arrays (not merely whatever the loaded
+    # object shows): template waveforms and spike-template assignment as written to disk
+    at = ok.get('amps_templates') or {}
+    if 'wfs' in at:
+        if at['wfs'] != np.asarray(spec['templates'], dtype=np.float32).astype(np.float64).tolist():
+            return 'SPEC: the template waveforms the summaries are computed from differ from the stored templates.npy'
+        if at['spikes'] != list(spec['spike_templates']):
+            return 'SPEC: the spike-template assignment the summaries are computed from differs from the stored one'
+    curated = spec.get('spike_clusters') is not None and spec['spike_clusters'] != spec['spike_templates']
+    if 'err' in ans.get('second', {}):
+        return 'MACHINERY: driver error in the cluster-waveform query: %s' % ans['second']['err']
+    c08 = ans.get('second', {}).get('ok')
+    if curated and c08 is not None and 'wfs' in (ok.get('amps_clusters') or {}):
+        exp_cw = [[[DC.to_float(x) for x in row] for row in M] for M in c08['data']]
+        if ok['amps_clusters']['wfs'] != exp_cw:
+            return 'SPEC: the cluster waveforms the summaries are computed from are not the count-weighted template means (C08)'
+    ac = ok.get('amps_clusters') or {}
+    if 'spikes' in ac and ac['spikes'] != list(spec.get('spike_clusters') or spec['spike_templates']):
+        return 'SPEC: the spike-cluster assignment the summaries are computed from differs from the stored one'
     f = case['factor']
     sr = spec['sample_rate']
     curated = spec.get('spike_clusters') is not None and spec['spike_clusters'] != spec['spike_templates']
